@@ -4,6 +4,11 @@
 # tree (VERIF_REPO) with evidence redirected to /tmp, and the worktree is removed.
 cd /verif || exit 3
 mkdir -p /tmp/scr/ev
+# run the checks from a private copy of the machinery, so that /verif can be edited meanwhile
+snap=/tmp/scr/snap.$$
+rm -rf "$snap"; mkdir -p "$snap"
+rsync -a --exclude .git --exclude replays --exclude evidence --exclude seeded --exclude __pycache__ /verif/ "$snap"/
+trap 'rm -rf "$snap"' EXIT
 for s in "$@"; do
   prop=$(python3 -c "import json;print(json.load(open('seeded/$s/meta.json'))['breaks_property'])")
   wt=/tmp/scr/$s
@@ -12,7 +17,7 @@ for s in "$@"; do
   if ! git -C "$wt" apply /verif/seeded/$s/patch.diff 2>/dev/null; then
     echo "SEED $s patch-does-not-apply"; git -C /repo worktree remove --force "$wt"; continue
   fi
-  out=$(VERIF_REPO=$wt VERIF_EVIDENCE_DIR=/tmp/scr/ev ./check $prop --tier quick 2>&1 | grep -E "^(OK|FAIL)" | tail -1)
+  out=$(VERIF_REPO=$wt VERIF_EVIDENCE_DIR=/tmp/scr/ev "$snap"/check $prop --tier quick 2>&1 | grep -E "^(OK|FAIL)" | tail -1)
   git -C /repo worktree remove --force "$wt"
   case "$out" in FAIL*) echo "SEED $s caught  [$out]";; *) echo "SEED $s MISSED  [$out]";; esac
 done
